@@ -21,14 +21,14 @@ def run(ctx):
     r.not_decided = ["Bio.Restriction.catalyse itself (library)"]
     inv = [k for k in ctx.inventory if k.concrete]
     for kc in inv:
-        geometry(ctx, kc, "C04.geometry")
+        ctx.guard(geometry, ctx, kc, "C04.geometry")
     r.floor("C04.geometry.groups", 80)
     for kc in generic_classes(ctx, enzymes_for_tier(ctx)):
-        geometry(ctx, kc, "C04.generic-geometry")
+        ctx.guard(geometry, ctx, kc, "C04.generic-geometry")
     from ..rules_misc import k21_match_overrides
     ctx.guard(k21_match_overrides, ctx, "C04")
     from ..rules_pattern import module_screen_rule
-    module_screen_rule(ctx, "C04.illegal-site-screen")
+    ctx.guard(module_screen_rule, ctx, "C04.illegal-site-screen")
     r.floor("C04.illegal-site-screen", 60)
     for kc in inv:
         if kc.role == "vector":
